@@ -51,4 +51,15 @@ theorem run_ok (cfg : Cfg) (σ : List String) (fs : FS) (us : List Upd) (hok : f
   exact ⟨by have := r1.inv; rw [r2] at this; exact this, by have := r1.ok; rw [r2] at this; exact this,
     r1.root, r2⟩
 
+/-- hypotheses shared by the theorems: a non-empty directory of well-formed contributions with
+    distinct non-empty names, within the loader's depth limit; well-formed edits; and the
+    include graphs are empty when indexing starts (`graphsClean`: the code repaired by
+    fix-stale-include-graph.diff, or a root chosen by name). -/
+structure Setting (cfg : Cfg) (fs : FS) (us : List Upd) : Prop where
+  ok : fsOk fs = true
+  nonempty : fs ≠ []
+  limit : fs.length ≤ cfg.limit
+  clean : graphsClean cfg fs
+  upds : updsOk us = true
+
 end HL.Lemmas.Run
